@@ -166,6 +166,11 @@ def pools(mod, k):
                   T(mod.K.m, {"self": mod.K(), "x": {1, 2}}, {1}), T(mod.K.m, {"self": mod.K(), "x": None}, None),
                   T(mod.K.m, {"self": mod.K(), "x": {"k": [None, 1]}}, [])],
         "td_name_collision": [T(mod.f, {"a": {"p": 1}, "b": None}, 1), T(mod.h, {"a": {"z": 1.5}}, 2)],
+        # two functions with the same parameter name, each seen with the same partially overlapping dict shapes: at k = 3 both
+        # get a generated class of the same name and the same fields, with two optional keys
+        "shared_td_param": [T(mod.f, {"a": {"x": 1, "p": 1}, "b": None}, 1), T(mod.f, {"a": {"x": 1, "q": "s"}, "b": None}, 1),
+                            T(mod.h, {"a": {"x": 1, "p": 1}}, 2), T(mod.h, {"a": {"x": 1, "q": "s"}}, 2),
+                            T(mod.f, {"a": {"x": 1}, "b": None}, 1), T(mod.h, {"a": {"x": 1}}, 2)],
         "mi_large_union": [T(mod.h, {"a": c()}, 0) for c in (mod.X, mod.Y, mod.Z, mod.X2, mod.Y2, mod.Z2)],
         # a Protocol that is not runtime-checkable among the bases of one member (issubclass refuses it), and an ABC with a
         # __subclasshook__ in the MRO of one member only (the others are virtual subclasses)
